@@ -1242,6 +1242,8 @@ func genC09(c *Ctx) {
 	c09Inputs(c)
 	c09PolyVectors(c)
 	c09Scalars(c)
+	c09Bignum(c)
+	c09TracePairs(c)
 	c09ProtocolAliases(c)
 	c09RGSW(c)
 	c09Circuits(c)
